@@ -1,4 +1,413 @@
-//! C08 monitor (not written yet).
-use crate::ctx::Ctx;
+//! C08 — native decoding agrees with untyped decoding at the same Candid type.
+use super::common::*;
+use crate::conv::*;
+use crate::corpus::registry::{self as reg, DecOut};
+use crate::ctx::{catch, hex, Ctx};
+use crate::gen::types::TypeCfg;
+use crate::gen::upgrade::Upgrader;
+use crate::gen::values::ValGen;
+use crate::model::wire::{decode, encodable, encode, EncOpts};
+use crate::model::*;
+use crate::rng::{hash_str, Rng};
+use candid::types::bounded_vec::{BoundedVec, UNBOUNDED};
+use candid::{Decode, DecoderConfig, IDLArgs};
+use serde_json::json;
 
-pub fn run(_ctx: &mut Ctx) {}
+/// Replace leaf types by look-alikes with a similar byte layout.
+fn lookalike(rng: &mut Rng, t: &RType) -> RType {
+    let swap = |rng: &mut Rng, t: &RType| -> Option<RType> {
+        Some(match t {
+            RType::Text => rng.pick(&[RType::vec(RType::Nat8), RType::vec(RType::Int8), RType::Principal]).clone(),
+            RType::Nat => rng.pick(&[RType::Int, RType::Nat8, RType::Nat64]).clone(),
+            RType::Int => rng.pick(&[RType::Nat, RType::Int64, RType::Int8]).clone(),
+            RType::Nat8 => rng.pick(&[RType::Int8, RType::Bool, RType::Nat]).clone(),
+            RType::Nat64 => rng.pick(&[RType::Int64, RType::Float64]).clone(),
+            RType::Nat32 => rng.pick(&[RType::Int32, RType::Float32]).clone(),
+            RType::Principal => rng.pick(&[RType::vec(RType::Nat8), RType::service(vec![])]).clone(),
+            RType::Bool => RType::Nat8,
+            RType::Null => RType::Reserved,
+            RType::Vec(x) if **x == RType::Nat8 => rng.pick(&[RType::Text, RType::vec(RType::Int8), RType::vec(RType::Bool)]).clone(),
+            _ => return None,
+        })
+    };
+    if rng.chance(1, 3) {
+        if let Some(s) = swap(rng, t) {
+            return s;
+        }
+    }
+    match t {
+        RType::Opt(x) => RType::opt(lookalike(rng, x)),
+        RType::Vec(x) => RType::vec(lookalike(rng, x)),
+        RType::Record(fs) => RType::Record(fs.iter().map(|(i, x)| (*i, lookalike(rng, x))).collect()),
+        RType::Variant(fs) => RType::Variant(fs.iter().map(|(i, x)| (*i, lookalike(rng, x))).collect()),
+        t => swap(rng, t).unwrap_or_else(|| t.clone()),
+    }
+}
+
+fn sort_vecs(v: &RValue) -> RValue {
+    match v {
+        RValue::Vec(xs) => {
+            let mut ys: Vec<RValue> = xs.iter().map(sort_vecs).collect();
+            ys.sort_by_key(|y| y.to_string());
+            RValue::Vec(ys)
+        }
+        RValue::Opt(x) => RValue::opt(sort_vecs(x)),
+        RValue::Record(fs) => RValue::Record(fs.iter().map(|(i, x)| (*i, sort_vecs(x))).collect()),
+        RValue::Variant(i, x) => RValue::Variant(*i, Box::new(sort_vecs(x))),
+        RValue::Reserved => RValue::Null,
+        x => x.clone(),
+    }
+}
+
+/// duplicate elements in any vector (maps / sets would collapse them natively)
+fn has_duplicates(v: &RValue) -> bool {
+    match v {
+        RValue::Vec(xs) => {
+            let mut keys: Vec<String> = xs
+                .iter()
+                .map(|x| match x {
+                    RValue::Record(fs) if fs.len() == 2 && fs[0].0 == 0 => fs[0].1.to_string(),
+                    x => x.to_string(),
+                })
+                .collect();
+            let n = keys.len();
+            keys.sort();
+            keys.dedup();
+            keys.len() != n || xs.iter().any(has_duplicates)
+        }
+        RValue::Opt(x) | RValue::Variant(_, x) => has_duplicates(x),
+        RValue::Record(fs) => fs.iter().any(|f| has_duplicates(&f.1)),
+        _ => false,
+    }
+}
+
+/// Documented host limits: a closed list of native-only failures.
+fn host_limit(err: &str, tname: &str) -> Option<&'static str> {
+    if err.contains("nat overflow") || err.contains("int overflow") || err.contains("Cannot convert nat to i128") {
+        return Some("128-bit-range");
+    }
+    if err.contains("invalid length") && tname.contains(';') {
+        return Some("array-length");
+    }
+    if err.contains("exceeds maximum allowed") {
+        return Some("bounded-vec-limit");
+    }
+    None
+}
+
+fn quota() -> DecoderConfig {
+    let mut c = DecoderConfig::new();
+    c.set_decoding_quota(5_000_000);
+    c
+}
+
+pub fn run(ctx: &mut Ctx) {
+    let n_types = reg::len();
+    let tcfg = TypeCfg { refs: true, ..TypeCfg::default() };
+    ctx.cases("corpus-type-vs-related-wire-types", 0.8, |ctx, rng| {
+        let i = rng.usize(n_types);
+        let (tname, kind) = reg::with(i, |t| (t.name(), t.kind()));
+        let (tenv, tt) = reg::with(i, |t| t.rtype());
+        // wire side: T's own type, an up/down-graded one, or a look-alike
+        let mode = rng.below(10);
+        let (wenv, wt, how) = match mode {
+            0 | 1 => (tenv.clone(), tt.clone(), "same"),
+            2..=4 => {
+                let mut up = Upgrader::new(&tcfg);
+                up.edit_pct = 30;
+                up.illegal_pct = 50; // both directions: wire may be a sub- or a supertype
+                let (e2, t2) = up.up_env(rng, &tenv, std::slice::from_ref(&tt));
+                (e2, t2[0].clone(), "upgraded")
+            }
+            _ => {
+                let e2 = REnv(tenv.0.iter().map(|d| lookalike(rng, d)).collect());
+                let t2 = lookalike(rng, &tt);
+                (e2, t2, "lookalike")
+            }
+        };
+        if !encodable(&wenv, &wt) || wenv.0.iter().any(|d| wenv.unfold(d).is_none()) {
+            return;
+        }
+        let vg = ValGen::new(&wenv);
+        let mut fuel = *rng.pick(&[5i64, 25, 60]);
+        let Some(v) = vg.gen(rng, &wt, &mut fuel) else { return };
+        let opts = EncOpts::default();
+        let Ok(bytes) = encode(&wenv, std::slice::from_ref(&wt), std::slice::from_ref(&v), &opts, None) else { return };
+        // native
+        let native = reg::with(i, |t| t.decode(&bytes, &quota()));
+        // untyped at T's Candid type (model of the type, independent of the derive)
+        let (cenv, cts) = candid_side(&tenv, std::slice::from_ref(&tt), None);
+        let untyped = catch(|| IDLArgs::from_bytes_with_types_with_config(&bytes, &cenv, &cts, &quota()));
+        let input = || {
+            json!({"rust_type": tname, "candid_type": format!("[{tenv}] {tt}"), "wire_type": format!("[{wenv}] {wt}"),
+                   "wire_value": v.to_string().chars().take(500).collect::<String>(), "bytes": hex(&bytes), "how": how})
+        };
+        let untyped = match untyped {
+            Err(p) => {
+                ctx.violation(&format!("panic|untyped|{}", p.sig()), &p.message, input());
+                return;
+            }
+            Ok(r) => r,
+        };
+        let shape_gap = tuple_shape_gap(&tenv, &tt, &wenv, &wt, 0);
+        let unordered = tname.contains("Map") || tname.contains("Set") || tname.contains("Heap");
+        // fixed-size arrays only with matching length (property text): any other vector length is out of scope
+        if let Some(n) = array_len(&tname) {
+            if !vec_lens_all(&v, n) {
+                ctx.count("excluded:array-length-mismatch");
+                return;
+            }
+        }
+        match (native, untyped) {
+            (DecOut::Panic(p), _) => ctx.violation(&format!("panic|native|{}", p.sig()), &p.message, input()),
+            (DecOut::Ok { model, reencoded, .. }, Ok(u)) => {
+                let um = model_value(&u.args[0]);
+                // the native value re-encoded must denote the same abstract value
+                let back = match reencoded.as_ref().map(|b| decode(b)) {
+                    Ok(Ok(d)) if d.values.len() == 1 => d.values[0].clone(),
+                    other => {
+                        ctx.violation(
+                            &format!("native-reencode-fails|{kind}"),
+                            &format!("re-encoding the decoded native value failed or is unreadable: {:?}", other.map(|r| r.map(|_| ()))),
+                            input(),
+                        );
+                        return;
+                    }
+                };
+                let _ = model;
+                if has_duplicates(&um) && (unordered || tname.contains("Big")) {
+                    ctx.count("excluded:duplicate-keys");
+                    return;
+                }
+                let (a, b) = (sort_vecs(&back), sort_vecs(&um));
+                if let Some(d) = diff_all(std::slice::from_ref(&a), std::slice::from_ref(&b)) {
+                    let sig = if shape_gap {
+                        "native-stricter|rust-tuple-or-map-entry|wire-record-not-tuple-shaped".to_string()
+                    } else {
+                        format!("values-differ|{kind}|{how}|{}", tname.split('<').next().unwrap_or(""))
+                    };
+                    ctx.violation(
+                        &sig,
+                        &format!("native result re-encoded (left) vs untyped result (right): {d}"),
+                        input(),
+                    );
+                } else {
+                    ctx.count("agree:both-accept");
+                }
+            }
+            (DecOut::Err(e), Ok(u)) => match host_limit(&e, &tname) {
+                Some(l) => ctx.count(&format!("excluded:host-limit:{l}")),
+                None => {
+                    let um = model_value(&u.args[0]);
+                    if unordered && has_duplicates(&um) {
+                        ctx.count("excluded:duplicate-keys");
+                        return;
+                    }
+                    let ec = err_class_str(&e);
+                    let sig = if shape_gap {
+                        // a wire record with a field outside 0..n decoded at a Rust tuple / map entry
+                        "native-stricter|rust-tuple-or-map-entry|wire-record-not-tuple-shaped".to_string()
+                    } else {
+                        format!("native-rejects|{kind}|{how}|{}|{ec}", tname.split('<').next().unwrap_or(""))
+                    };
+                    ctx.violation(
+                        &sig,
+                        &format!("untyped decoding at the same Candid type returns {} but native decoding fails: {}", u.args[0], err_class_str(&e)),
+                        input(),
+                    )
+                }
+            },
+            (DecOut::Ok { model, .. }, Err(e)) => ctx.violation(
+                &format!("native-accepts|{kind}|{how}|{}|{}", tname.split('<').next().unwrap_or(""), err_class(&e)),
+                &format!("native decoding returns {} but untyped decoding at the same Candid type fails: {}", model.to_string().chars().take(300).collect::<String>(), err_class(&e)),
+                input(),
+            ),
+            (DecOut::Err(_), Err(_)) => ctx.count("agree:both-reject"),
+        }
+        ctx.count(&format!("cover:wire:{how}"));
+        ctx.count(&format!("cover:kind:{kind}"));
+        ctx.nontrivial(hash_str(&format!("{tname}|{how}|{}", shape(&wenv, &wt, 4))));
+        ctx.sample(input);
+    });
+    // borrowed targets and bounded vectors: fixed Rust types against generated wire types
+    ctx.cases("borrowed-and-bounded", 0.2, |ctx, rng| {
+        let wire_types = [
+            RType::Text,
+            RType::vec(RType::Nat8),
+            RType::vec(RType::Int8),
+            RType::vec(RType::Bool),
+            RType::Principal,
+            RType::vec(RType::Nat64),
+            RType::vec(RType::Text),
+            RType::vec(RType::Empty),
+            RType::opt(RType::Text),
+            RType::Nat,
+            RType::vec(RType::Nat),
+        ];
+        let wt = rng.pick(&wire_types).clone();
+        let env = REnv::new();
+        let vg = ValGen { max_len: 8, ..ValGen::new(&env) };
+        let mut fuel = 40i64;
+        let Some(v) = vg.gen(rng, &wt, &mut fuel) else { return };
+        let Ok(bytes) = encode(&env, std::slice::from_ref(&wt), std::slice::from_ref(&v), &EncOpts::default(), None) else { return };
+        let input = |target: &str| json!({"rust_type": target, "wire_type": wt.to_string(), "wire_value": v.to_string(), "bytes": hex(&bytes)});
+        // expected Candid types of the targets
+        let check = |ctx: &mut Ctx, target: &str, expected: RType, native: Result<Result<RValue, String>, crate::ctx::PanicInfo>| {
+            let (cenv, cts) = candid_side(&env, std::slice::from_ref(&expected), None);
+            let untyped = IDLArgs::from_bytes_with_types(&bytes, &cenv, &cts).map(|a| model_value(&a.args[0]));
+            match (native, untyped) {
+                (Err(p), _) => ctx.violation(&format!("panic|native|{target}|{}", p.sig()), &p.message, input(target)),
+                (Ok(Ok(n)), Ok(u)) => {
+                    if sort_vecs_none(&n) != sort_vecs_none(&u) {
+                        ctx.violation(&format!("values-differ|{target}"), &format!("native {n} vs untyped {u}"), input(target));
+                    } else {
+                        ctx.count(&format!("agree:both-accept:{target}"));
+                    }
+                }
+                (Ok(Ok(n)), Err(e)) => ctx.violation(
+                    &format!("native-accepts|{target}|wire={}", shape(&env, &wt, 2)),
+                    &format!("native decoding returns {n} but untyped decoding at {expected} fails: {}", err_class(&e)),
+                    input(target),
+                ),
+                (Ok(Err(e)), Ok(u)) => {
+                    if e.contains("exceeds maximum allowed") {
+                        ctx.count("agree:bounded-rejects");
+                    } else if target.starts_with('&') && !matches!(wt, RType::Text | RType::Principal) && wt != RType::vec(RType::Nat8) {
+                        // a borrowed slice needs the bytes contiguous on the wire: only blob / text / principal can be borrowed
+                        ctx.count("excluded:host-limit:borrowed-needs-contiguous-bytes");
+                    } else {
+                        ctx.violation(&format!("native-rejects|{target}|wire={}", shape(&env, &wt, 2)), &format!("untyped returns {u}, native fails: {}", err_class_str(&e)), input(target))
+                    }
+                }
+                (Ok(Err(_)), Err(_)) => ctx.count(&format!("agree:both-reject:{target}")),
+            }
+        };
+        let b = &bytes;
+        check(ctx, "&str", RType::Text, catch(|| Decode!(b, &str).map(|s| RValue::Text(s.to_string())).map_err(|e| format!("{e:?}"))));
+        check(ctx, "&[u8]", RType::vec(RType::Nat8), catch(|| Decode!(b, &[u8]).map(RValue::blob).map_err(|e| format!("{e:?}"))));
+        check(
+            ctx,
+            "&serde_bytes::Bytes",
+            RType::vec(RType::Nat8),
+            catch(|| Decode!(b, &serde_bytes::Bytes).map(|x| RValue::blob(x)).map_err(|e| format!("{e:?}"))),
+        );
+        check(
+            ctx,
+            "Cow<str>",
+            RType::Text,
+            catch(|| Decode!(b, std::borrow::Cow<'_, str>).map(|s| RValue::Text(s.to_string())).map_err(|e| format!("{e:?}"))),
+        );
+        check(
+            ctx,
+            "serde_bytes::ByteBuf",
+            RType::vec(RType::Nat8),
+            catch(|| Decode!(b, serde_bytes::ByteBuf).map(|x| RValue::blob(&x)).map_err(|e| format!("{e:?}"))),
+        );
+        // bounded vectors accept exactly the vectors within their limits
+        type B3 = BoundedVec<3, UNBOUNDED, UNBOUNDED, u8>;
+        type BT = BoundedVec<UNBOUNDED, 16, UNBOUNDED, u64>;
+        type BE = BoundedVec<UNBOUNDED, UNBOUNDED, 4, String>;
+        let len = match &v {
+            RValue::Vec(xs) => xs.len(),
+            _ => 0,
+        };
+        let r = catch(|| Decode!(b, B3).map(|x| RValue::blob(x.get())).map_err(|e| format!("{e:?}")));
+        if wt == RType::vec(RType::Nat8) {
+            match &r {
+                Ok(Ok(_)) if len > 3 => ctx.violation("bounded-vec|accepts-too-long", &format!("{len} elements accepted by BoundedVec<3,..>"), input("BoundedVec<3,_,_,u8>")),
+                Ok(Err(e)) if len <= 3 => ctx.violation("bounded-vec|rejects-within-limit", &format!("{len} elements rejected: {}", err_class_str(e)), input("BoundedVec<3,_,_,u8>")),
+                _ => ctx.count("agree:bounded-len"),
+            }
+        }
+        check(ctx, "BoundedVec<3,_,_,u8>", RType::vec(RType::Nat8), r);
+        let r = catch(|| Decode!(b, BT).map(|x| RValue::Vec(x.get().iter().map(|n| RValue::Nat64(*n)).collect())).map_err(|e| format!("{e:?}")));
+        if wt == RType::vec(RType::Nat64) {
+            match &r {
+                Ok(Ok(_)) if len * 8 > 16 => ctx.violation("bounded-vec|accepts-too-large-total", &format!("{len} u64 accepted with total limit 16 bytes"), input("BoundedVec<_,16,_,u64>")),
+                Ok(Err(e)) if len * 8 <= 16 => ctx.violation("bounded-vec|rejects-within-limit", &format!("{len} u64 rejected: {}", err_class_str(e)), input("BoundedVec<_,16,_,u64>")),
+                _ => ctx.count("agree:bounded-total"),
+            }
+        }
+        check(ctx, "BoundedVec<_,16,_,u64>", RType::vec(RType::Nat64), r);
+        let r = catch(|| Decode!(b, BE).map(|x| RValue::Vec(x.get().iter().map(|s| RValue::Text(s.clone())).collect())).map_err(|e| format!("{e:?}")));
+        if wt == RType::vec(RType::Text) {
+            let too_big = match &v {
+                RValue::Vec(xs) => xs.iter().any(|x| matches!(x, RValue::Text(s) if s.len() > 4)),
+                _ => false,
+            };
+            match &r {
+                Ok(Ok(_)) if too_big => ctx.violation("bounded-vec|accepts-too-large-element", "an element larger than 4 bytes was accepted", input("BoundedVec<_,_,4,String>")),
+                Ok(Err(e)) if !too_big => ctx.violation("bounded-vec|rejects-within-limit", &format!("rejected: {}", err_class_str(e)), input("BoundedVec<_,_,4,String>")),
+                _ => ctx.count("agree:bounded-element"),
+            }
+        }
+        check(ctx, "BoundedVec<_,_,4,String>", RType::vec(RType::Text), r);
+        ctx.count(&format!("cover:borrowed-wire:{}", shape(&env, &wt, 2)));
+        ctx.nontrivial(hash_str(&format!("b|{}|{len}", wt)));
+    });
+}
+
+/// Is there a position where the expected record is tuple-shaped (a Rust tuple, tuple struct, tuple variant
+/// or map entry) and the wire record is not (has a field id outside 0..n)? Native decoding insists on a
+/// tuple-shaped wire record there, the subtyping rules do not.
+fn tuple_shape_gap(eenv: &REnv, e: &RType, wenv: &REnv, w: &RType, depth: usize) -> bool {
+    if depth > 12 {
+        return false;
+    }
+    let (Some(e), Some(w)) = (eenv.unfold(e), wenv.unfold(w)) else { return false };
+    match (e, w) {
+        (RType::Vec(a), RType::Vec(b)) => {
+            // a Rust map insists on a wire entry type that is exactly a pair, whatever the vector holds
+            if let (Some(RType::Record(fe)), Some(wb)) = (eenv.unfold(a), wenv.unfold(b)) {
+                let pair_e = fe.len() == 2 && fe[0].0 == 0 && fe[1].0 == 1;
+                let pair_w = matches!(wb, RType::Record(fw) if fw.len() == 2 && fw[0].0 == 0 && fw[1].0 == 1);
+                if pair_e && !pair_w {
+                    return true;
+                }
+            }
+            tuple_shape_gap(eenv, a, wenv, b, depth + 1)
+        }
+        (RType::Opt(a), RType::Opt(b)) => tuple_shape_gap(eenv, a, wenv, b, depth + 1),
+        (RType::Opt(a), b) => tuple_shape_gap(eenv, a, wenv, b, depth + 1),
+        (RType::Record(fe), RType::Record(fw)) => {
+            let tuple_e = !fe.is_empty() && fe.iter().enumerate().all(|(i, f)| f.0 == i as u32);
+            let tuple_w = fw.iter().enumerate().all(|(i, f)| f.0 == i as u32);
+            if tuple_e && !tuple_w {
+                return true;
+            }
+            fe.iter().any(|(id, te)| fw.iter().find(|f| f.0 == *id).map(|(_, tw)| tuple_shape_gap(eenv, te, wenv, tw, depth + 1)).unwrap_or(false))
+        }
+        (RType::Variant(fe), RType::Variant(fw)) => {
+            fe.iter().any(|(id, te)| fw.iter().find(|f| f.0 == *id).map(|(_, tw)| tuple_shape_gap(eenv, te, wenv, tw, depth + 1)).unwrap_or(false))
+        }
+        _ => false,
+    }
+}
+
+fn array_len(name: &str) -> Option<usize> {
+    let i = name.find(';')?;
+    let rest = &name[i + 1..];
+    let j = rest.find(']')?;
+    rest[..j].parse().ok()
+}
+/// every vector anywhere in the value has length n (conservative: arrays may sit at any depth)
+fn vec_lens_all(v: &RValue, n: usize) -> bool {
+    match v {
+        RValue::Vec(xs) => xs.len() == n && xs.iter().all(|x| vec_lens_all(x, n)),
+        RValue::Opt(x) | RValue::Variant(_, x) => vec_lens_all(x, n),
+        RValue::Record(fs) => fs.iter().all(|f| vec_lens_all(&f.1, n)),
+        _ => true,
+    }
+}
+
+/// reserved reads as null on re-encoding; order kept
+fn sort_vecs_none(v: &RValue) -> RValue {
+    match v {
+        RValue::Vec(xs) => RValue::Vec(xs.iter().map(sort_vecs_none).collect()),
+        RValue::Opt(x) => RValue::opt(sort_vecs_none(x)),
+        RValue::Record(fs) => RValue::Record(fs.iter().map(|(i, x)| (*i, sort_vecs_none(x))).collect()),
+        RValue::Variant(i, x) => RValue::Variant(*i, Box::new(sort_vecs_none(x))),
+        RValue::Reserved => RValue::Null,
+        x => x.clone(),
+    }
+}
